@@ -101,12 +101,6 @@ def sameRes : Op → Res → Res → Prop
   | .reserve _ _ _ _ _, r, _ => ∃ n, r = .nat n
   | _, r, rs => r = rs
 
-/-- which of the byte-wise loop operations `step_refines` covers -/
-structure LoopsProvedT where
-  trim : Bool
-  caseChange : Bool
-def LoopsProved : LoopsProvedT := ⟨false, false⟩
-
 /-- The argument regions in which the real code (as pinned) does NOT behave like independent values, and the
     arguments the line protocol cannot express; `run_refines` assumes an operation is outside them.
     `vals` are the independent values before the operation. -/
@@ -129,9 +123,6 @@ def Safe (vals : Vals) : Op → Prop
   | .reserve _ ideal mn mx _ => ideal < W ∧ mn < W ∧ mx < W
   -- the printf family is outside the statement of C48 (no std::string counterpart): differential run only
   | .appendf _ _ _ | .printf _ _ _ | .appendfS _ _ | .printfS _ _ => False
-  -- the byte-wise loops: refinement not proved yet (`LoopsProved`); covered by the differential run
-  | .trim _ _ _ _ => LoopsProved.trim = true
-  | .toLower _ | .toUpper _ => LoopsProved.caseChange = true
   | _ => True
 
 end SquidModel.SBuf
